@@ -405,7 +405,7 @@ func (ex *Exec) Run() {
 	for _, gv := range ghostVars {
 		st.ghost[gv.Name] = ex.U.DeclareConst(gv.Name+"@pre", gv.Sort)
 	}
-	ex.facts = append(ex.facts, "(>= alloc@pre 0)")
+	ex.facts = append(ex.facts, "(>= alloc@pre 0)", "(<= evLastTime@pre evClock@pre)", "(>= evLastTime@pre 0)")
 	ex.st = st
 	ex.entry = nil
 	// parameters
